@@ -27,7 +27,7 @@ type simUns struct {
 type simCmp struct {
 	Phase   int    `json:"phase"`
 	Against int    `json:"against"`
-	Kind    string `json:"kind"` // ok | dup | badlen | badidx
+	Kind    string `json:"kind"` // ok | dup | badlen | badidx | idx255 | idxn | empty
 }
 type simExtra struct {
 	Phase int    `json:"phase"`
@@ -163,6 +163,59 @@ func (b *simByz) vecBytes(kind string, P, P2 []*big.Int, t int) [][]byte {
 		return [][]byte{v}
 	case "dup":
 		return [][]byte{v, dkgMsgVec(P2)}
+	case "same": // the identical vector twice
+		return [][]byte{v, append([]byte{}, v...)}
+	case "badpoint-first": // the same defects at the first and at a middle position of the vector
+		v[1] = 0xE0
+		return [][]byte{v}
+	case "badvalue-last":
+		for i := 0; i < 48; i++ {
+			v[last+i] = 0xFF
+		}
+		v[last] = 0x9F
+		return [][]byte{v}
+	case "offcurve-first", "notg2-first":
+		copy(v[1:], simBadPoint(strings.TrimSuffix(kind, "-first")))
+		return [][]byte{v}
+	case "offcurve-mid", "notg2-mid", "badpoint-mid":
+		mid := 1 + dkgG2Len*(t/2)
+		if kind == "badpoint-mid" {
+			v[mid] = 0xE0
+		} else {
+			copy(v[mid:], simBadPoint(strings.TrimSuffix(kind, "-mid")))
+		}
+		return [][]byte{v}
+	case "allbad": // every point malformed in a different way
+		for k := 0; k <= t; k++ {
+			switch k % 3 {
+			case 0:
+				copy(v[1+dkgG2Len*k:], simBadPoint("notg2"))
+			case 1:
+				v[1+dkgG2Len*k] = 0xE0
+			case 2:
+				copy(v[1+dkgG2Len*k:], simBadPoint("offcurve"))
+			}
+		}
+		return [][]byte{v}
+	case "order13", "g2plus13": // on the curve, outside G2, with a small-order component (last position)
+		copy(v[last:], simSmallOrderPoint(kind))
+		return [][]byte{v}
+	case "order13-first", "g2plus13-first":
+		copy(v[1:], simSmallOrderPoint(strings.TrimSuffix(kind, "-first")))
+		return [][]byte{v}
+	case "g2plus13-c1":
+		// the commitment of the coefficient of X is shifted by a point of order 13: the vector is invalid, but the public
+		// key it yields for a participant whose evaluation point is a multiple of 13 is the honest one, so that
+		// participant's (honest) share matches
+		if t < 1 {
+			panic("g2plus13-c1 needs t >= 1")
+		}
+		copy(v[1+dkgG2Len:], simG2Plus13(P[1]))
+		return [][]byte{v}
+	case "longer": // one more point than t+1
+		return [][]byte{append(v, dkgEncG2(big.NewInt(11))...)}
+	case "shorter": // one point less
+		return [][]byte{v[:last]}
 	}
 	panic("vector kind " + kind)
 }
@@ -191,8 +244,16 @@ func simShareBytes(kind string, P []*big.Int, to int) [][]byte {
 		return [][]byte{append([]byte{dkgTagVec}, ok[1:]...)}
 	case "empty":
 		return [][]byte{{}}
+	case "nil": // a nil slice instead of an empty one
+		return [][]byte{nil}
 	case "dup":
 		return [][]byte{ok, dkgMsgShare(dkgMod(new(big.Int).Add(s, big.NewInt(5))))}
+	case "badfirst": // a wrong share, then the right one (only the first counts)
+		return [][]byte{dkgMsgShare(dkgMod(new(big.Int).Add(s, big.NewInt(5)))), ok}
+	case "twice": // the right share twice
+		return [][]byte{ok, append([]byte{}, ok...)}
+	case "long": // one byte too many
+		return [][]byte{append(append([]byte{}, ok...), 0)}
 	}
 	panic("share kind " + kind)
 }
@@ -217,6 +278,12 @@ func simAnswerBytes(kind string, P []*big.Int, c int, n int) [][]byte {
 		return [][]byte{dkgMsgAnswer(n+1, s)}
 	case "dup":
 		return [][]byte{ok, dkgMsgAnswer(c, dkgMod(new(big.Int).Add(s, big.NewInt(9))))}
+	case "badfirst": // a wrong answer, then the right one (only the first counts)
+		return [][]byte{dkgMsgAnswer(c, dkgMod(new(big.Int).Add(s, big.NewInt(9)))), ok}
+	case "long":
+		return [][]byte{append(append([]byte{}, ok...), 0)}
+	case "idx255":
+		return [][]byte{dkgMsgAnswer(255, s)}
 	}
 	panic("answer kind " + kind)
 }
@@ -370,6 +437,12 @@ func (sr *simRun) byzPhase(ph int) {
 				groups = append(groups, []item{{true, 0, []byte{dkgTagComplaint, byte(c.Against), 1}}})
 			case "badidx":
 				groups = append(groups, []item{{true, 0, dkgMsgComplaint(in.N + 2)}})
+			case "idx255":
+				groups = append(groups, []item{{true, 0, dkgMsgComplaint(255)}})
+			case "idxn": // the smallest index that is out of range
+				groups = append(groups, []item{{true, 0, dkgMsgComplaint(in.N)}})
+			case "empty": // the complaint tag alone
+				groups = append(groups, []item{{true, 0, []byte{dkgTagComplaint}}})
 			}
 		}
 		for _, x := range b.Extra {
@@ -379,6 +452,8 @@ func (sr *simRun) byzPhase(ph int) {
 			switch x.Kind {
 			case "empty":
 				groups = append(groups, []item{{true, 0, []byte{}}})
+			case "nil":
+				groups = append(groups, []item{{true, 0, nil}})
 			case "badtag":
 				groups = append(groups, []item{{true, 0, []byte{77, 1}}})
 			case "sharetag":
@@ -493,15 +568,90 @@ func (sr *simRun) deliverPhase() {
 		c.nd.pend = append(c.nd.pend[:c.k:c.k], c.nd.pend[c.k+1:]...)
 		if m.bcast {
 			c.nd.next[m.from]++
-			sr.call(c.nd, dkgCall{Op: "bcast", Orig: m.from, Msg: hx(m.data)})
+			sr.call(c.nd, dkgCall{Op: "bcast", Orig: m.from, Msg: hx(m.data), Nil: m.data == nil})
 		} else {
 			c.nd.nextP[m.from]++
-			sr.call(c.nd, dkgCall{Op: "priv", Orig: m.from, Msg: hx(m.data)})
+			sr.call(c.nd, dkgCall{Op: "priv", Orig: m.from, Msg: hx(m.data), Nil: m.data == nil})
 		}
 	}
 }
 
-func simRunCase(in *simIn) (string, map[string]any, bool, error) {
+// C07, last sentence: on success the key objects End returned must WORK: every honest participant's private
+// share signs verifiably under its public share (taken from another participant's result), and any t+1
+// shares reconstruct a threshold signature that verifies under the group key.  Only judged when every honest
+// participant returned keys with the same encodings (disagreement is the Coq oracle's business).
+func simKeysBehave(sr *simRun) error {
+	in := sr.in
+	type res struct {
+		x  crypto.PrivateKey
+		Y  crypto.PublicKey
+		ys []crypto.PublicKey
+	}
+	var rs []res
+	for _, p := range sr.order {
+		nd := sr.nodes[p]
+		o := nd.obs[len(nd.obs)-1]
+		if o.Class != "keys" {
+			return nil
+		}
+		if err := dkgKeysStable(nd.obs); err != nil {
+			return err
+		}
+		rs = append(rs, res{o.keys[0].(crypto.PrivateKey), o.keys[1].(crypto.PublicKey), o.keys[2].([]crypto.PublicKey)})
+	}
+	if len(rs) == 0 {
+		return nil
+	}
+	for _, q := range rs[1:] {
+		if !q.Y.Equals(rs[0].Y) || len(q.ys) != len(rs[0].ys) || len(q.ys) != in.N {
+			return nil
+		}
+		for j := range q.ys {
+			if !q.ys[j].Equals(rs[0].ys[j]) {
+				return nil
+			}
+		}
+	}
+	msg := []byte("dkg simulation")
+	kmac := crypto.NewExpandMsgXOFKMAC128("dkg-sim")
+	var shares []crypto.Signature
+	var signers []int
+	for k, p := range sr.order {
+		sig, err := rs[k].x.Sign(msg, kmac)
+		if err != nil {
+			return implViolation("participant %d: the private share returned by End cannot sign: %v", p, err)
+		}
+		other := rs[(k+1)%len(rs)]
+		ok, err := other.ys[p].Verify(sig, msg, kmac)
+		if err != nil || !ok {
+			return implViolation("participant %d: signature by the private share returned by End does not verify under public share %d as returned to participant %d (%v, %v)", p, p, sr.order[(k+1)%len(rs)], ok, err)
+		}
+		shares = append(shares, sig)
+		signers = append(signers, p)
+	}
+	if len(shares) < in.T+1 {
+		return nil
+	}
+	var first crypto.Signature
+	for _, lo := range []int{0, len(shares) - (in.T + 1)} {
+		ts, err := crypto.BLSReconstructThresholdSignature(in.N, in.T, shares[lo:lo+in.T+1], signers[lo:lo+in.T+1])
+		if err != nil {
+			return implViolation("threshold reconstruction from the shares of participants %v fails: %v", signers[lo:lo+in.T+1], err)
+		}
+		ok, err := rs[0].Y.Verify(ts, msg, kmac)
+		if err != nil || !ok {
+			return implViolation("the threshold signature of participants %v does not verify under the group key returned by End (%v, %v)", signers[lo:lo+in.T+1], ok, err)
+		}
+		if first == nil {
+			first = ts
+		} else if string(first) != string(ts) {
+			return implViolation("two sets of t+1 participants reconstruct different threshold signatures")
+		}
+	}
+	return nil
+}
+
+func simRunCase(in *simIn, behave bool) (string, map[string]any, bool, error) {
 	sr := &simRun{in: in, r: rand.New(rand.NewPCG(in.Sched, 0xd1b54a32d192ed03)), nodes: map[int]*simNode{}, byz: map[int]*simByz{},
 		bpoly: map[int][]*big.Int{}, bpoly2: map[int][]*big.Int{}, seq: map[int]int{}, lastLand: map[int]int{}, answered: map[string]bool{}}
 	dkgEncG2(new(big.Int))
@@ -564,6 +714,11 @@ func simRunCase(in *simIn) (string, map[string]any, bool, error) {
 	if sr.err != nil {
 		return "", nil, false, sr.err
 	}
+	if behave && in.Proto != "vss" {
+		if err := simKeysBehave(sr); err != nil {
+			return "", nil, false, err
+		}
+	}
 	var parts []string
 	obs := map[string]any{}
 	events := 0
@@ -588,12 +743,17 @@ func simRunCase(in *simIn) (string, map[string]any, bool, error) {
 	return term, obs, events > 0, nil
 }
 
-func simRunJSON(c Case) (Result, error) {
+func simRunJSON(c Case) (Result, error) { return simRunWith(c, false) }
+
+// C07 also makes the returned key objects work (simKeysBehave)
+func simRunBehave(c Case) (Result, error) { return simRunWith(c, true) }
+
+func simRunWith(c Case, behave bool) (Result, error) {
 	var in simIn
 	if err := json.Unmarshal(c.Input, &in); err != nil {
 		return Result{}, err
 	}
-	term, obs, nontrivial, err := simRunCase(&in)
+	term, obs, nontrivial, err := simRunCase(&in, behave)
 	if err != nil {
 		return Result{}, err
 	}
